@@ -78,6 +78,25 @@ macro_rules! inst_1d {
                     interp.interp_array_into(&q1.view(), buf.view_mut()).unwrap();
                     check_log($rep, &format!("{} interp_array_into Ix1", label), 2);
                     if bits(buf.iter()) != b1 { $rep.fail(&format!("{}: interp_array_into (fast path) differs", label), J::Null); }
+                    // the fast path with the query given as a negative-stride view (contiguous in reverse memory order)
+                    verif::reset();
+                    let q1r = Array1::from(qv.iter().rev().cloned().collect::<Vec<$e>>());
+                    let r1v = interp.interp_array(&q1r.slice(ndarray::s![..;-1])).unwrap();
+                    check_log($rep, &format!("{} query Ix1 (reversed view)", label), 2);
+                    if bits(r1v.iter()) != b1 { $rep.fail(&format!("{}: fast path with a negative-stride query view differs from the general path", label), J::Null); }
+                    // both paths into a buffer that is not in standard layout
+                    {
+                        let mut bg = r_dyn.clone(); bg.fill(0 as $e);
+                        if bg.ndim() > 0 { let a = ndarray::Axis(bg.ndim() - 1); bg.invert_axis(a); }
+                        let okg = catch_unwind(AssertUnwindSafe(|| interp.interp_array_into(&q_dyn1, bg.view_mut()).is_ok())).unwrap_or(false);
+                        let mut bfst = r1.clone(); bfst.fill(0 as $e);
+                        if bfst.ndim() > 0 { let a = ndarray::Axis(bfst.ndim() - 1); bfst.invert_axis(a); }
+                        let okf = catch_unwind(AssertUnwindSafe(|| interp.interp_array_into(&q1, bfst.view_mut()).is_ok())).unwrap_or(false);
+                        $rep.evaluations += 2;
+                        if !okg || !okf || bits(bg.iter()) != b1 || bits(bfst.iter()) != b1 {
+                            $rep.fail(&format!("{}: buffer with a negative stride: general path ok = {}, fast path ok = {}, or contents differ", label, okg, okf), J::Null);
+                        }
+                    }
                     // errors: an out-of-range element that is not the last one -- both paths must refuse, and the
                     // fast path must stop writing where the general path stops
                     let qbad: Vec<$e> = vec![0 as $e, (n + 5) as $e, 1 as $e];
@@ -142,6 +161,25 @@ macro_rules! inst_2d {
                     let lanes = b1.len() / 3;
                     if bits(r0.iter()) != b1[lanes..2 * lanes].to_vec() {
                         $rep.fail(&format!("{}: 0-d query differs from the batch element", label), J::Null);
+                    }
+                    // both paths into a buffer that is not in standard layout, and the fast path with negative-stride queries
+                    {
+                        let mut bg = r_dyn.clone(); bg.fill(0 as $e);
+                        if bg.ndim() > 0 { let a = ndarray::Axis(bg.ndim() - 1); bg.invert_axis(a); }
+                        let okg = catch_unwind(AssertUnwindSafe(|| interp.interp_array_into(&xd, &yd, bg.view_mut()).is_ok())).unwrap_or(false);
+                        let mut bfst = r1.clone(); bfst.fill(0 as $e);
+                        if bfst.ndim() > 0 { let a = ndarray::Axis(bfst.ndim() - 1); bfst.invert_axis(a); }
+                        let okf = catch_unwind(AssertUnwindSafe(|| interp.interp_array_into(&Array1::from(qx.clone()), &Array1::from(qy.clone()), bfst.view_mut()).is_ok())).unwrap_or(false);
+                        $rep.evaluations += 2;
+                        if !okg || !okf || bits(bg.iter()) != b1 || bits(bfst.iter()) != b1 {
+                            $rep.fail(&format!("{}: buffer with a negative stride: general path ok = {}, fast path ok = {}, or contents differ", label, okg, okf), J::Null);
+                        }
+                        let xr = Array1::from(qx.iter().rev().cloned().collect::<Vec<$e>>());
+                        let yr = Array1::from(qy.iter().rev().cloned().collect::<Vec<$e>>());
+                        let rv = interp.interp_array(&xr.slice(ndarray::s![..;-1]), &yr.slice(ndarray::s![..;-1])).unwrap();
+                        let rv2 = interp.interp_array(&xr.slice(ndarray::s![..;-1]), &Array1::from(qy.clone())).unwrap();
+                        $rep.evaluations += 2;
+                        if bits(rv.iter()) != b1 || bits(rv2.iter()) != b1 { $rep.fail(&format!("{}: fast path with negative-stride query views differs from the general path", label), J::Null); }
                     }
                     let xbad: Vec<$e> = vec![0 as $e, (nx + 5) as $e, 1 as $e];
                     let ef = interp.interp_array(&Array1::from(xbad.clone()), &Array1::from(qy.clone())).is_err();
